@@ -111,6 +111,11 @@ claim('C15', 'observation of the whole pipeline (laminate -> k0/kG0/kM -> packag
       'restrained flag patterns: adding terms in either direction never raises any of the six lowest multipliers / frequencies.',
       'closed forms evaluated with the independent lamination oracle; one-sided tolerance 1e-9 + 50 eps cond(K)', '4/C15')
 
+claim('C16', 'reference-model monitor on ConeCyl linear matrices: energy Hessian by quadrature of ConeCyl.strain (odd symmetrisation) on the free amplitudes, convergence monitor in the number of meridian sections for cones, differential execution of kernel pairs',
+      'Classical models: k0 minus the real edge-restraint matrix is compared entry-wise with the surface strain-energy Hessian (cylinders exact; cones through s = 10,20,40,80 with s^-2 rate and Richardson limit); all models: symmetry, PSD, partition book-keeping; '
+      'fk0/fkG0 at alpha=0 vs fk0_cyl/fkG0_cyl called directly with the same F; iso short-cut models vs general models with an isotropic laminate; kG0 linear in (Fc,P,T) and combined-load split.',
+      'ConeCyl.strain of the matching commons module (iso models borrow the general model field); FSDT models are outside the energy clause as in the statement', '4/C16')
+
 ALL = ['C%02d' % i for i in range(1, 21)]
 PENDING_REASON = 'check not built yet in this round (runtime-monitoring plan in DESIGN.md section 4); will be claimed once its monitor runs silent on the unchanged tree'
 
